@@ -395,6 +395,10 @@ func (c *Ctx) closedSumNoMatchEdge(pred, succ *ssa.BasicBlock) bool {
 	var subject ssa.Value
 	asserted := map[string]bool{}
 	cur, next := pred, succ
+	// an explicit default arm that does nothing (`default: continue`) is a block of its own
+	for steps := 0; steps < 4 && len(cur.Preds) == 1 && jumpOnly(cur); steps++ {
+		next, cur = cur, cur.Preds[0]
+	}
 	for steps := 0; steps < 40; steps++ {
 		iff, ok := cur.Instrs[len(cur.Instrs)-1].(*ssa.If)
 		if !ok || len(cur.Succs) != 2 || cur.Succs[1] != next {
@@ -840,4 +844,16 @@ func (lf *lenFacts) memOnePerIteration(al *ssa.Alloc) (ssa.Value, *ssa.BasicBloc
 		}
 	}
 	return nil, nil, false
+}
+
+// jumpOnly: the block does nothing but jump on.
+func jumpOnly(b *ssa.BasicBlock) bool {
+	for _, in := range b.Instrs {
+		switch in.(type) {
+		case *ssa.Jump, *ssa.DebugRef:
+		default:
+			return false
+		}
+	}
+	return true
 }
